@@ -110,7 +110,7 @@ class BridgeHarness(Harness):
          slave (axil): (aw, w, b_up, ar, r_up/data) ; (wb): (lat, lastreq) ; (csr): (dat_r expected next,)"""
 
     def __init__(self, name, kind, words=(0, 1), strbs=None, conc=False, w_late=True, w_before_aw=False, maxlat=1, err=False,
-                 pipelined=False, cap=None, marks=(1, 2), b2b=False, **p):
+                 pipelined=False, cap=None, marks=(1, 2), b2b=False, busy=False, seq=False, **p):
         self.name, self.kind, self.p = name, kind, p
         self.mw, self.sw = p.get("mw", 32), p.get("sw", p.get("mw", 32))
         self.nl = self.mw//8
@@ -119,6 +119,8 @@ class BridgeHarness(Harness):
         self.conc, self.w_late, self.w_before_aw, self.maxlat, self.err, self.marks = conc, w_late, w_before_aw, maxlat, err, marks
         self.nbytes = p.get("nbytes", 8)
         self.b2b = b2b
+        self.seq = seq          # AHB master: a pipelined next transfer at the following address is the SEQ beat of an INCR burst
+        self.busy = busy        # AHB master: transfers are announced as undefined-length INCR bursts and BUSY cycles may follow them
         self.base = p.get("base", 0)
         if cap:
             self.cap = cap
@@ -203,6 +205,8 @@ class BridgeHarness(Harness):
             if wr[0] == "D":
                 # data phase: optionally present the address phase of the next transfer (held once presented)
                 mch = [(("hold", wr[2]), ("-",))] if wr[2] is not None else [(("hold", None), ("-",))] + [(("hold", op), ("-",)) for op in self.ahbnext]
+                if wr[2] is None and self.busy:
+                    mch.append((("hold", "busy"), ("-",)))      # BUSY in the address slot (held while HREADY is low), then the burst ends
             else:
                 mch = [(("idle",), ("-",))] + [(("ahb", op), ("-",)) for op in self.ahbops]
         else:
@@ -301,8 +305,17 @@ class BridgeHarness(Harness):
             adr_op = c[1] if c[0] in ("ahb", "hold") else None
             v[M["sel"]] = 1
             v[M["burst"]] = v[M["mastlock"]] = v[M["prot"]] = 0
-            if adr_op is not None:
+            if self.busy or self.seq:
+                v[M["burst"]] = 1            # INCR, undefined length
+            if adr_op == "busy":
+                # a slave must ignore BUSY: the lines announce the next address of the burst, as a write
+                cur = wr[1]
+                v[M["trans"]], v[M["addr"]], v[M["size"]], v[M["write"]] = 1, self.base + ((cur[1]//self.nl + 1) % 2)*self.nl, log2_int(self.nl), 1
+            elif adr_op is not None:
                 v[M["trans"]], v[M["addr"]], v[M["size"]], v[M["write"]] = 2, self.base + adr_op[1], adr_op[2], adr_op[0]
+                if self.seq and wr[0] == "D" and (adr_op[0], adr_op[2]) == (wr[1][0], wr[1][2]) and adr_op[1] == wr[1][1] + (1 << wr[1][2]):
+                    v[M["trans"]] = 3        # SEQ: same direction and size, next address
+                    self.cov["seq_beats"] = self.cov.get("seq_beats", 0) + 1
             else:
                 v[M["trans"]], v[M["addr"]], v[M["size"]], v[M["write"]] = 0, (1 << ADRW) - 1, 2, 1
             v[M["wdata"]] = (1 << self.mw) - 1
@@ -596,7 +609,9 @@ class BridgeHarness(Harness):
                                 return env, ("read.value", f"AHB read addr={op[1]:#x} size={op[2]}: lane {l} returns {(got >> (8*l)) & 0xFF:#x}, flat memory holds {exp:#x}"), 0
                         self.cov["reads"] += 1
                     flags |= PROGRESS
-                    wr2 = ("D", c[1], None) if c[1] is not None else ("T",)
+                    wr2 = ("D", c[1], None) if c[1] not in (None, "busy") else ("T",)
+                    if c[1] == "busy":
+                        self.cov["busy_cycles"] = self.cov.get("busy_cycles", 0) + 1
                 else:
                     wr2 = ("D", op, c[1])
         else:
@@ -694,6 +709,8 @@ for (itf, idw, bus, bdw, direction, tier) in [
     reg(f"add_adapter({itf}{idw}->{bus}{bdw} bus,{direction})", tier, kind="adapter", itf=itf, idw=idw, bus=bus, bdw=bdw, direction=direction,
         mw=mwid, sw=swid, nbytes=16, marks=(1,), strbs=strbs_, w_late=False)
 reg("AHB2Wishbone(32bit)", "quick", kind="ahb2wb", mw=32, nbytes=8, marks=(1,))
+reg("AHB2Wishbone(32bit)+busy_cycles", "quick", kind="ahb2wb", mw=32, nbytes=8, marks=(1,), busy=True)
+reg("AHB2Wishbone(32bit)+seq_beats", "quick", kind="ahb2wb", mw=32, nbytes=8, marks=(1,), seq=True)
 reg("AHB2Wishbone(32bit),2marks,lat2", "thorough", kind="ahb2wb", mw=32, nbytes=8, marks=(1, 2), maxlat=2)
 reg("AHB2Wishbone(64bit)", "thorough", kind="ahb2wb", mw=64, nbytes=16, marks=(1,), words=(0, 1))
 reg("AXILite2CSR(32bit)", "quick", kind="axil2csr", mw=32, nbytes=8, strbs=(0b1111,), marks=(1, 2))
